@@ -276,6 +276,9 @@ func randomTx(rng *rand.Rand, allowOdd bool) (*bt.Tx, *bec.PrivateKey) {
 	if rng.Intn(25) == 0 {
 		nin = 0
 	}
+	if rng.Intn(40) == 1 {
+		nin = 251 + rng.Intn(4) // the input count is a varint too: both sides of 252/253
+	}
 	for i := 0; i < nin; i++ {
 		var ps *bscript.Script = own
 		if allowOdd {
